@@ -9,6 +9,7 @@ import EdpVerif.Lemmas.SortMap
 import EdpVerif.Lemmas.CmpArmsEq
 import EdpVerif.Lemmas.CmpArmsRefine
 import EdpVerif.Lemmas.CmpTables
+import EdpVerif.Lemmas.DecSortedErl
 /-
 C12 — term comparison agrees with Erlang's standard term order.
 Oracle: `Erl.cmp` on the denoted values (Spec/ErlOrder.lean); `Term.den` (Impl/Den.lean) is the denotation.
@@ -190,5 +191,39 @@ example : (∀ p ∈ [((.atom [98] : Term), (.int 1 : Term)), (.atom [97], .int 
 /-- removing entries keeps a map in key order -/
 theorem C12_sorted_after_removal (m m' : List (Term × Term)) (h : m'.Sublist m) (hs : keysSorted m) :
     adjSorted m' = true := adjSorted_of_keysSorted m' (keysSorted_sublist h hs)
+
+/-! ### … and it holds of everything the decoder returns
+
+The decoder fills every map by `BTreeMap::insert` (`mapInsert` in the model).  The induction over the decoder model
+(Lemmas/DecSorted.lean, `dec_btInv`: every tag, any cache, fuel, depth, behaviour of the external calls) shows that every
+map node of a decoded term whose keys carry minimal big integers has its keys pairwise strictly ascending; `WFe` asks
+minimal digits anyway, so for decoded terms the `mapsSorted` guard of `C12_agrees` is discharged. -/
+
+/-- every term the decoder model returns (entered at any depth, with any cache) whose big integers have minimal digits
+stores every map in ascending key order -/
+theorem C12_decoded_maps_sorted (x : Ext) (cfg : DecCfg) (fuel d : Nat) (bs : Bytes) (t : Term) (r : Bytes)
+    (h : dec x cfg fuel d bs = .ok (t, r)) (hw : WFo t = true) : mapsSorted t = true :=
+  mapsSorted_of_mapsStrict t (dec_mapsStrict x cfg fuel d bs t r h (mapKeysMin_of_WFo t hw))
+
+/-- the agreement theorem WITHOUT the `mapsSorted` guard for what `decode` / `decode_borrowed` / `decode_with_atom_cache`
+return (`decodeWith` under any configuration): the library's order of two decoded terms is Erlang's order of the values -/
+theorem C12_agrees_decoded (x y : Ext) (ca cb : DecCfg) (ba bb : Bytes) (a b : Term)
+    (ha : decodeWith x ca ba = .ok a) (hb : decodeWith y cb bb = .ok b) (wa : WFe a) (wb : WFe b) :
+    Term.cmp a b = Erl.cmp (Term.den a) (Term.den b) :=
+  C12_agrees a b wa wb
+    (mapsSorted_of_mapsStrict a (mapsStrict_of_btInv a (decodeWith_btInv x ca ba a ha) (mapKeysMin_of_WFo a (WFo_of_WFe a wa))))
+    (mapsSorted_of_mapsStrict b (mapsStrict_of_btInv b (decodeWith_btInv y cb bb b hb) (mapKeysMin_of_WFo b (WFo_of_WFe b wb))))
+
+/-- non-vacuity: a map sent with its keys out of order (2 before 1) is decoded into key order, and the result
+satisfies the hypotheses of `C12_agrees_decoded` -/
+example : decodeWith Ext.none {} [131, 116, 0, 0, 0, 2, 97, 2, 97, 7, 97, 1, 97, 8] =
+      .ok (.map [(.int 1, .int 8), (.int 2, .int 7)]) ∧
+    WFe (.map [(.int 1, .int 8), (.int 2, .int 7)]) = true := by
+  constructor
+  · simp [decodeWith, dec, decKV, rdU, rdN, ownedOnlyTags, MAX_NESTING_DEPTH, MAX_MAP_SIZE, Ext.none, mapInsert,
+      Term.cmp, Term.norm, Term.cmpN]
+    have : compare (1 : Int) 2 = .lt := by decide
+    simp [this]
+  · simp [WFe, WFeKV, keysExact, Value.noTie, Term.den]
 
 end Edp.Props.C12
